@@ -1,1 +1,232 @@
-//! (families added below)
+//! Security families: C09 (authentication), C10 (cancel), C11 (hostile bytes).
+
+use super::*;
+
+/// C09: users/databases configured or not, MD5 and trust, cleartext and auth_query secrets,
+/// wrong / truncated / oversized / replayed responses, other messages in place of the password,
+/// EOF and silence during the handshake, logins during shutdown.
+pub fn c09(rng: &mut Rng, thorough: bool, idx: u64) -> Spec {
+    let auth_query = idx % 3 == 2;
+    let shutdown = idx % 4 == 3;
+    let mut cfg = single_pool("transaction", 4, 0);
+    cfg.set("connect_timeout", 2000);
+    cfg.set("shutdown_timeout", 20000);
+    // a second user; optionally a trust user
+    cfg.pools[0].users.push(UserDef { key: "1".into(), ..UserDef::new("other", "otherpw", 2) });
+    let trust_user = rng.chance(0.3);
+    if trust_user {
+        let mut u = UserDef::new("trusty", "unused", 2);
+        u.key = "2".into();
+        u.extra.push("auth_type = \"trust\"".into());
+        cfg.pools[0].users.push(u);
+    }
+    let boot_lookup_down = auth_query && rng.chance(0.4);
+    if auth_query {
+        // app has no cleartext password: its MD5 secret comes from the servers
+        cfg.pools[0].users[0].password = None;
+        cfg.pools[0].extra.push("auth_query = \"SELECT * FROM public.user_lookup('$1')\"".into());
+        cfg.pools[0].extra.push("auth_query_user = \"aq\"".into());
+        cfg.pools[0].extra.push("auth_query_password = \"aqpw\"".into());
+    }
+    let mut hosts = cfg.hosts();
+    for h in hosts.iter_mut() {
+        h.users.insert("aq".into(), "aqpw".into());
+        h.users.insert("app".into(), "apppw".into());
+        h.shadow.insert("app".into(), "apppw".into());
+        h.shadow.insert("other".into(), "otherpw".into());
+        if boot_lookup_down {
+            // the lookup role cannot log in at boot (wrong password on the server side), repaired later
+            h.users.insert("aq".into(), "not-yet".into());
+        }
+    }
+    let mut actions = Vec::new();
+    let mut clients = Vec::new();
+    let mut kinds = serde_json::Map::new();
+    let mut id = 0u32;
+    let host0 = hosts[0].addr.clone();
+    // one or two honest clients first (their responses are the material for replays)
+    let n_honest = rng.range(1, 2);
+    for _ in 0..n_honest {
+        id += 1;
+        let mut p = Prog::new(id);
+        p.new_txn();
+        let s = p.select(1, 0, "");
+        p.simple(s);
+        p.think(rng.range(5, 60));
+        p.new_txn();
+        let s = p.select(1, 0, "");
+        p.simple(s);
+        p.steps.push(Step::Terminate);
+        let (user, pw) = if rng.chance(0.7) { ("app", "apppw") } else { ("other", "otherpw") };
+        let mut c = client(id, user, "db", pw, rng.range(0, 40), p.steps);
+        if boot_lookup_down && user == "app" {
+            // honest app logins only after the lookup role was repaired
+            c.start = When::After { ev: "lookup_repaired".into(), delay_ms: rng.range(5, 40) };
+        }
+        c.role = "worker".into();
+        kinds.insert(id.to_string(), serde_json::json!("honest"));
+        clients.push(c);
+    }
+    if boot_lookup_down {
+        let t = rng.range(100, 300);
+        for h in &hosts {
+            actions.push(ActionSpec { at: When::AtMs { ms: t }, act: Action::SetHostUser { host: h.addr.clone(), user: "aq".into(), password: "aqpw".into() } });
+        }
+        actions.push(ActionSpec { at: When::AtMs { ms: t + 1 }, act: Action::Emit { ev: "lookup_repaired".into() } });
+    }
+    // attackers
+    let behaviours = ["wrong", "replay", "truncated", "oversized", "othermsg", "eof", "none", "hash_empty", "unknown_user", "unknown_db", "other_users_password", "admin_wrong", "admin_with_app_password", "wrong_then_flood"];
+    let n_att = rng.range(2, if thorough { 7 } else { 5 });
+    for _ in 0..n_att {
+        id += 1;
+        let b = *rng.pick(&behaviours);
+        let mut p = Prog::new(id);
+        // whatever happens, the attacker goes on sending tagged queries
+        for _ in 0..rng.range(1, 3) {
+            p.new_txn();
+            let s = p.select(1, 0, "");
+            p.simple(s);
+        }
+        p.steps.push(Step::Drop { abort: false });
+        let mut c = client(id, "app", "db", "apppw", rng.range(0, 400), p.steps);
+        c.role = "attacker".into();
+        c.patience_ms = 3000;
+        match b {
+            "wrong" | "wrong_then_flood" => c.auth = "wrong".into(),
+            "replay" => {
+                c.auth = format!("replay:{}", 1);
+                c.start = When::After { ev: "c1.login_done".into(), delay_ms: rng.range(1, 50) };
+                c.user = clients[0].user.clone();
+            }
+            "truncated" => c.auth = "truncated".into(),
+            "oversized" => c.auth = "oversized".into(),
+            "othermsg" => c.auth = "othermsg".into(),
+            "eof" => c.auth = "eof".into(),
+            "none" => c.auth = "none".into(),
+            "hash_empty" => c.auth = "hash:".into(),
+            "unknown_user" => c.user = "mallory".into(),
+            "unknown_db" => c.database = "nosuchdb".into(),
+            "other_users_password" => c.password = Some("otherpw".into()),
+            "admin_wrong" => {
+                c.database = "pgcat".into();
+                c.user = "admin".into();
+                c.password = Some("guess".into());
+            }
+            "admin_with_app_password" => {
+                c.database = "pgcat".into();
+                c.user = "admin".into();
+                c.password = Some("apppw".into());
+            }
+            _ => {}
+        }
+        if rng.chance(0.2) {
+            c.ssl_probe = true;
+        }
+        kinds.insert(id.to_string(), serde_json::json!(b));
+        clients.push(c);
+    }
+    // a legitimate admin and (optionally) a trust user
+    id += 1;
+    let mut a = admin_client(id, "main", When::AtMs { ms: rng.range(0, 200) }, &["SHOW VERSION"]);
+    a.role = "admin".into();
+    kinds.insert(id.to_string(), serde_json::json!("honest_admin"));
+    clients.push(a);
+    if trust_user {
+        id += 1;
+        let mut p = Prog::new(id);
+        p.new_txn();
+        let s = p.select(1, 0, "");
+        p.simple(s);
+        p.steps.push(Step::Terminate);
+        let mut c = client(id, "trusty", "db", "whatever", rng.range(0, 200), p.steps);
+        c.role = "worker".into();
+        kinds.insert(id.to_string(), serde_json::json!("honest_trust"));
+        clients.push(c);
+    }
+    // auth_query: the secret changes on the servers mid-run; the old password stops working
+    let mut shadow_change_ms = 0u64;
+    if auth_query && rng.chance(0.5) {
+        shadow_change_ms = rng.range(300, 600);
+        for h in &hosts {
+            actions.push(ActionSpec { at: When::AtMs { ms: shadow_change_ms }, act: Action::SetShadow { host: h.addr.clone(), user: "app".into(), password: "newpw".into() } });
+        }
+        id += 1;
+        let mut p = Prog::new(id);
+        p.new_txn();
+        let s = p.select(1, 0, "");
+        p.simple(s);
+        p.steps.push(Step::Terminate);
+        let mut c = client(id, "app", "db", "newpw", shadow_change_ms + rng.range(50, 200), p.steps);
+        c.role = "worker".into();
+        kinds.insert(id.to_string(), serde_json::json!("honest_new_password"));
+        clients.push(c);
+        id += 1;
+        let mut p = Prog::new(id);
+        p.new_txn();
+        let s = p.select(1, 0, "");
+        p.simple(s);
+        p.steps.push(Step::Drop { abort: false });
+        let mut c = client(id, "app", "db", "apppw", shadow_change_ms + rng.range(250, 400), p.steps);
+        c.role = "attacker".into();
+        c.patience_ms = 3000;
+        kinds.insert(id.to_string(), serde_json::json!("old_password_after_change"));
+        clients.push(c);
+    }
+    // graceful shutdown with a transaction still open: logins arriving afterwards (with valid and
+    // invalid credentials) must all be refused, except for the admin database
+    let mut sig_ms = 0u64;
+    if shutdown {
+        sig_ms = rng.range(300, 900);
+        id += 1;
+        let mut p = Prog::new(id);
+        p.new_txn();
+        let s = p.select(1, 0, "");
+        p.simple("BEGIN".into());
+        p.simple(s);
+        p.think(sig_ms + rng.range(300, 1500));
+        p.simple("COMMIT".into());
+        p.steps.push(Step::Terminate);
+        let mut c = client(id, "other", "db", "otherpw", rng.range(0, 50), p.steps);
+        c.role = "worker".into();
+        kinds.insert(id.to_string(), serde_json::json!("honest_holder"));
+        clients.push(c);
+        actions.push(ActionSpec { at: When::AtMs { ms: sig_ms }, act: Action::Signal { sig: "INT".into() } });
+        for _ in 0..rng.range(1, 4) {
+            id += 1;
+            let b = *rng.pick(&["late_correct", "late_correct", "late_wrong", "late_trust", "late_admin"]);
+            let mut p = Prog::new(id);
+            p.new_txn();
+            let s = p.select(1, 0, "");
+            p.simple(s);
+            p.steps.push(Step::Drop { abort: false });
+            let at = sig_ms + rng.range(2, 250);
+            let mut c = client(id, "app", "db", if auth_query && shadow_change_ms > 0 && at > shadow_change_ms { "newpw" } else { "apppw" }, at, p.steps);
+            c.role = "attacker".into();
+            c.patience_ms = 3000;
+            match b {
+                "late_wrong" => c.auth = "wrong".into(),
+                "late_trust" if trust_user => c.user = "trusty".into(),
+                "late_admin" => {
+                    c = admin_client(id, "main", When::AtMs { ms: at }, &["SHOW VERSION"]);
+                    c.role = "admin".into();
+                }
+                _ => {}
+            }
+            kinds.insert(id.to_string(), serde_json::json!(b));
+            clients.push(c);
+        }
+    }
+    let net = if rng.chance(0.5) { net_calm() } else { NetSpec { latency_ms: (0, *rng.pick(&[0u64, 1, 2])), ..net_swarm(rng) } };
+    let mut spec = Spec { config_toml: cfg.render(), hosts, net, clients, actions, end: EndSpec { deadline_ms: 900_000, calm_ms: 50 }, ..Default::default() };
+    spec.params = params_from(&cfg);
+    spec.params.insert("c09_kinds".into(), serde_json::Value::Object(kinds));
+    spec.params.insert("auth_query".into(), serde_json::json!(auth_query));
+    spec.params.insert("boot_lookup_down".into(), serde_json::json!(boot_lookup_down));
+    spec.params.insert("shadow_change_ms".into(), serde_json::json!(shadow_change_ms));
+    spec.params.insert("trust_user".into(), serde_json::json!(trust_user));
+    spec.params.insert("sigint_ms".into(), serde_json::json!(sig_ms));
+    spec.params.insert("lookup_host".into(), serde_json::json!(host0));
+    spec.family = format!("auth/{}{}", if auth_query { "auth_query" } else { "cleartext" }, if boot_lookup_down { "/lookup_down_at_boot" } else { "" }) + if shutdown { "/shutdown" } else { "" };
+    spec.oracles = vec!["c09_auth".into(), "liveness".into()];
+    spec
+}
